@@ -792,7 +792,7 @@ var c16Kept []c16KeptAnswer
 func c16(c *fw.Ctx) {
 	c.Rule("every BitMatrix shape w in 1..130 x h in 1..8 (all 1040, exhaustive) and every BitArray size 0..200 from both constructors, each with N random operation sequences of 40 steps from the exported API (in-range arguments, word-boundary-biased positions); full state and every query compared with a [][]bool / []bool model after every step; a case is non-trivial when all 40 steps ran, distinct = distinct (shape, operation trace)")
 	c.Assume("the models in worker/c16.go are the specification of a plain bit container (Get outside the matrix is false, as the Go port documents)")
-	nseq := c.Pick(20, 300)
+	nseq := c.Pick(20, 1200)
 	for w := 1; w <= 130; w++ {
 		for h := 1; h <= 8; h++ {
 			for k := 0; k < nseq; k++ {
@@ -804,7 +804,7 @@ func c16(c *fw.Ctx) {
 		}
 	}
 	c.Exhaustive("BitMatrix shapes 1..130 x 1..8")
-	aseq := c.Pick(30, 400)
+	aseq := c.Pick(30, 1600)
 	for n := 0; n <= 200; n++ {
 		for ctor := 0; ctor < 2; ctor++ {
 			for k := 0; k < aseq; k++ {
